@@ -15,18 +15,18 @@ SPACE = {
  "C04": "B: C06 base texts (6 orders x 2 styles x {plain, other spellings: net types, defparam, `timescale}; aliased header port), chains of depth 3-4 in every declaration order, expression product, bundled .v x {identity, uniquify, flatten, clone} x {write_blackbox, defparam}",
  "C05": "B: E1-E7 x 144 option sets (reference letter case, rename style, libraryRef, comments, design case, rich = external library + status blocks + properties on cells/views/ports/nets + (number N) values + owner); every permutation x non-empty subset of the bits of two bus nets; F_hier K1/K8; bundled .edf vs independent s-expression reading",
  "C06": "B: rich base design (incl. an aliased header port) x 6 module orders x header/ANSI x {no, sparse, dense} comments x {plain, other documented spellings: `timescale, skipped `ifdef and UDP, comma lists, net types on ports and wires, defparam}; chains depth 3-4(-5) in all orders; every connection expression of the grammar up to width 3 x named/positional x declared before/after/`celldefine/never x header/ANSI",
- "C07": "B: every element of every design cloned (variants plain, unnamed, top also a child, definition removed, two libraries, outside instance; nested user data on every element kind); 12 edit tails x {copy, original}",
- "C08": "B: F_hier (all wiring partitions of the small skeletons, arithmetic slices of the deep ones) x variants incl. clashing names and definitions reshaped after instancing",
- "C09": "B: the same family through uniquify + flatten",
- "C10": "A: 5 naming scopes x 2 policies (a second definition reusing the names, orphan with identifier), depth 2; lookups from parent, library and netlist roots",
+ "C07": "B: every element of every design cloned (variants plain, unnamed, top also a child, definition removed, two libraries, outside instance, EDIF policy with identifiers - exact lookups by name and identifier in every scope of the copy; nested user data on every element kind); 12 edit tails x {copy, original}",
+ "C08": "B: F_hier (all wiring partitions of the small skeletons, arithmetic slices of the deep ones) x variants incl. clashing names, definitions reshaped after instancing, a second round from a non-initial state, EDIF-policy designs whose identifiers are taken up to case",
+ "C09": "B: the same family through uniquify + flatten; a hierarchical cell without ports; EDIF-policy designs carrying identifiers, also with generated-looking identifiers already present",
+ "C10": "A: 5 naming scopes x 2 policies (a second definition reusing the names, orphan with identifier; constructors given a properties dictionary), the mixed-policy scenario N-MIX-EDIF (orphans built under DEFAULT joining an EDIF tree, policy tag of an orphan root set), depth 2; lookups from parent, library and netlist roots",
  "C11": "B: 5 get_h* functions x all root kinds x recursive; found again by its own name; one-element arrays; unnamed items; 40 breaking edits x skeletons, is_valid / is_unique re-judged",
  "C12": "B: every hwire / hpin / hcable / hport / wire start, get_hwires and get_hcables with ALL / INSIDE / OUTSIDE / BOTH, get_hpins",
  "C13": "B: 2 policies x 13 functions x 12 roots x lookup on/off x selection x recursive x key x patterns (incl. bracketed names, pairs in both orders) x is_case x is_re x filter",
  "C14": "A: S1-S11 + 10 naming scenarios: every refused call compared with its pre-state (snapshot incl. name index, then exact lookups)",
- "C15": "B (fault enumeration): 8 base files x every single token fault (truncate, delete, duplicate, replace by ( ) undeclared unsupported number nothing declared-name) x policy; every instantiation graph over three modules (cycles included) x declaration orders; file-level faults; later parse of a different good file compared with a fresh process",
- "C16": "B: ~1.5 k netlists of all origins x 3 targets x option sets; sdn.compose and Netlist.compose; nameless netlists",
+ "C15": "B (fault enumeration): 11 base files (incl. the other Verilog spellings, rich EDIF, EBLIF with .clock / inout / nameless instances) x every single token fault (truncate, delete, duplicate, replace by ( ) undeclared unsupported number nothing declared-name) x policy; every instantiation graph over three modules (cycles included) x declaration orders; file-level faults; later parse of a different good file compared with a fresh process",
+ "C16": "B: ~1.5 k netlists of all origins (API-built also parent-first, both set orders) x 3 targets x option sets; sdn.compose and Netlist.compose; nameless netlists; the documented extension aliases",
  "C17": "B: all ordered pairs of names of length <= 2 (<= 3 thorough) over 13 characters; triples; 3/11/12 long siblings sharing 255-300 characters; pre-existing x_sdn_N_; every scope end to end incl. cross-scope",
- "C18": "B: bases B1-B5 (.subckt/.gate/.names/.latch/.conn incl. star and feed-through, 12-input .names, growing port sets) x every statement order x continuation (positions, lone backslash, reversed formals) x comments x model placement; bundled .eblif",
+ "C18": "B: bases B1-B7 (.subckt/.gate/.names/.latch/.conn incl. star, cycle, feed-through and bit 1 of a bus port, 12-input .names, growing port sets, .clock, a port that is input and output, instances without .cname) x every statement order x continuation (positions, lone backslash, reversed formals) x comments x model placement; bundled .eblif",
  "C19": "A: S1-S11 with a shadow listener registered before the seed; strict (no redundant add/remove/connect announcements); each notified transition re-run without listeners; every single-hook and every all-but-one listener against the all-hooks listener and no listener (seed + first events of every scenario), registration residue",
  "C20": "B: 6 base netlists: 3 kinds of faithful copy + every single mutation (directions, widths, array-ness, moved / dropped / added connections, re-points incl. same name in another library, each property, added/dropped elements)",
 }
